@@ -34,10 +34,14 @@ type Backend struct {
 	RootPath string
 }
 
-// RootGone reports that the directory a disk backend is rooted in no longer exists
-// (the filespace removed its own root): cheap scalar state logged with every event.
+// RootGone reports that the directory a backend is rooted in no longer exists (a disk
+// filespace or a child view removed its own root): cheap scalar state logged with every event.
 func (b *Backend) RootGone() bool {
 	if b.RootPath == "" {
+		// a child view of an in-memory filespace: its base must be a directory of the parent
+		if b.Root != nil && len(b.Base) > 0 {
+			return !b.Root.IsDir(strings.Join(b.Base, "/"))
+		}
 		return false
 	}
 	_, err := os.Stat(b.RootPath)
